@@ -36,11 +36,14 @@ PROPS = {
     "C07": dict(engine="e1", level="exploration"),
     "C08": dict(engine="e1", level="fault_enumeration", rule="e4", evaluations_counter="crash.states", distinct="states"),
     "C33": dict(engine="e1", level="exploration", rule="e1-sync"),
+    "C27": dict(engine="e1", level="exploration", rule="e5-access"),
+    "C28": dict(engine="e1", level="exploration", rule="e5-crash"),
     "C10": dict(engine="e1", level="exploration", rule="e1-net"),
     "C23": dict(engine="e1", level="exploration", rule="e1-net"),
     "C22": dict(engine="e1", level="exploration", rule="e1-frame"),
     "C24": dict(engine="e1", level="exploration", rule="e1-book"),
     "C25": dict(engine="e1", level="exploration", rule="e1-gate"),
+    "C26": dict(engine="e6", level="exploration", rule="e6-pex"),
     "C17": dict(engine="e3", level="exploration", rule="e3-derive"),
     "C18": dict(engine="e3", level="exploration", rule="e3-encrypt"),
     "C19": dict(engine="e3", level="exploration", rule="e3-service"),
@@ -61,7 +64,25 @@ ENGINES["e3"] = dict(race=False,
                            "real directory, records each primitive step, injects short-write errors and materialises crash states",
                            "entropy (seeded)", "wall clock (synctest fake clock)"])
 
+ENGINES["e6"] = dict(race=False, real=["daemon/pex (Pex, peerlist, validateAddress, Run goroutine with the clearOld ticker, save/load of peers.json via util/file)"],
+                     stub=["wall clock (synctest fake clock: minutes to weeks are jumped)", "pex random source (hook H3 seeds it)", "peer list download (disabled)"])
+
 RULES = {
+    "e5-access": "one run = one API configuration (random subset of the 7 API sets, CSRF on/off, header check on/off, credentials set or not, host whitelist or not) on a real node "
+                 "(visor + bolt + daemon + wallet service + kv storage behind the real mux, middleware and handlers via hook H6, requests through httptest) and a session of "
+                 "20-60 requests over the 52 routes documented in src/api/README.md x {GET, POST, PUT, DELETE, HEAD} with header variants: token in {fresh, none, expired by "
+                 "advancing the fake clock 31 s, superseded by a later token, tampered, forged}, Host in {configured, localhost, foreign, whitelisted}, Origin/Referer in "
+                 "{none, own, foreign, whitelisted}, credentials in {exact, none, wrong, user/password boundary shifted, user only}; whenever a stated condition fails the "
+                 "status must be the refusal status of one of the failing conditions; non-trivial = at least 3 requests with a failing condition",
+    "e5-crash": "one run = a real node with a chain of 2-6 blocks, a non-empty pool, two wallets and kv data; 20-80 requests over all documented routes and methods with "
+                "parameters built from live state (addresses, output ids, transaction ids, raw transactions: pooled, confirmed, spending spent outputs, malformed, truncated) "
+                "and mutated (missing, huge, negative, non-UTF-8, wrong content type, malformed JSON, oversized bodies); a panic, a status outside 200-599, an unparsable "
+                "declared-JSON body or a verify answer without verdict is a violation; non-trivial = at least 10 requests",
+    "e6-pex": "one run = a real pex.New on a per-run directory (max 2-8, 0-3 trusted defaults, loopback allowed or not, optional custom peers file) with its real Run goroutine, "
+              "driven by 8-60 operations: AddPeer / AddPeers (0-600) with address strings from 26 IP classes x 15 port classes x whitespace and punctuation decorations, "
+              "RemovePeer, retry bookkeeping, SetHasIncomingPort/Random/Trusted, one-by-one filling, clock advances of a minute to 30 days (stale sweep every 10 simulated "
+              "minutes), shutdown + reload (sometimes on a truncated peers file); after every operation every listed address is validated independently, the bound is "
+              "checked after bulk adds and every configured trusted peer must be present and trusted; non-trivial = at least 5 checks",
     "e1-net": "one run = a network of 2-3 real nodes (publisher + followers; real visor, bolt, daemon handlers and gnet pool, stepped through hooks H4/H5) on simulated "
               "links; 20-90 events: clients hand transactions (incl. fat ones and a packer that fills the pool to the block size limit) to any node, the publisher's block "
               "timer, request/announce/refresh timers, clock advance, and delivery of one in-flight frame with faults (drop, duplicate, chunked, and for C10 third-party "
